@@ -488,7 +488,7 @@ func c19WrongKind(e *core.Env, rep *core.Report, bin, root string) {
 		"conv_on_var_later":    "// X is a value.\n// goverter:converter\nvar X = 1\n",
 		"conv_on_struct_later": "// X is a struct.\n//\n//goverter:converter\ntype X struct{}\n",
 		"vars_on_type_block":   "/*\nX is an interface.\ngoverter:variables\n*/\ntype X interface{ M(int) int }\n",
-		"conv_on_import": "// goverter:converter\nimport \"fmt\"\n\nvar _ = fmt.Sprint\n",
+		"conv_on_import":       "// goverter:converter\nimport \"fmt\"\n\nvar _ = fmt.Sprint\n",
 	}
 	var names []string
 	for n := range cases {
